@@ -382,6 +382,7 @@ fn single_player_iter<'a, const FIRST: bool>(
     crate::verif::pass_end(it, if FIRST { 0 } else { 1 });
     // update all infosets
     work.payoffs.clear();
+    work.work.clear();
     chance_infosets
         .iter_mut()
         .for_each(|info| info.get_mut().unwrap().advance());
